@@ -354,3 +354,22 @@ def run(ctx):
         ctx.sig(kind, type(enc).__name__, enc.encoding, calname(cal), raw in vals, route, "falsy" if not raw else "truthy")
         run_case(ctx, F, t, {}, raw, rng.randrange(8), route, rng,
                  {"kind": kind, "cal": calname(cal), "source": "raw", "q": "falsy-raw" if not raw else "-"})
+
+    # ---- 5. enum / bool must not depend on calibrators that cannot be evaluated for the raw value ---------------------
+    bad_cals = [ir.Spline(((2.0, 1.0), (5.0, 2.0)), 0, False), ir.Spline(((2.0, 1.0), (5.0, 2.0)), 1, False),
+                ir.Poly(((1.0, -1),)), ir.Poly(((3.0, -2), (1.0, 0)))]
+    for bi, cal in enumerate(bad_cals):
+        for as_context in (False, True):
+            for kind in ("enumerated", "boolean"):
+                item += 1
+                if not ctx.mine(item):
+                    continue
+                cc = (ir.ContextCal((ir.Comparison("MODE", "1"),), cal),) if as_context else ()
+                enc = ir.IntEnc(4, "unsigned", False, None if as_context else cal, cc)
+                t = ir.PType("T", kind, enc, enumeration=tuple((v, f"E{v}") for v in range(16)) if kind == "enumerated" else ())
+                for raw in (0, 1, 2, 5, 6, 15):
+                    for route in routes:
+                        ctx.count("enum.listed" if kind == "enumerated" else "bool")
+                        ctx.sig(kind, "uncomputable-calibrator", calname(cal), as_context, route, raw == 0)
+                        run_case(ctx, F, t, {"MODE": ("int", 1, 1)}, raw, rng.randrange(8), route, rng, {})
+
